@@ -67,9 +67,10 @@ def atom_specs(tier):
 _DOM = {}
 
 
-def domain(src):
+def domain(src, tag=None):
+    """one interpreter (with its modelled lru_caches) per process and per `tag`; a separate tag gives an isolated, cold instance"""
     import os
-    key = (str(src), os.getpid())
+    key = (str(src), os.getpid(), tag)
     if key not in _DOM:
         _DOM[key] = MarkerDomain(src, CANDS)
     return _DOM[key]
